@@ -873,15 +873,24 @@ pub open spec fn prune_exact(old: World, fin: World, dir: PathV, cap: nat, recs:
              'r.is_err() ==> final(w).hard_faults > old(w).hard_faults || (absent_err(err_of(r)) && !old(w).dirs.contains(pbv(cache_dir)) && final(w).same_fs(*old(w)))'),
         ])
     pr.insert_before(('let update =', 'let mut update ='), 'let ghost recs = cached_files@;\n    let ghost w1 = *w;\n    let ghost dir = pbv(cache_dir);\n    proof { assert(recs.len() == cached_files.len()); }\n    ')
+    # (A) right after the planner: the plan is the Second Chance plan, hence made of evictable records of this directory
     pr.insert_before('let num_evicted =',
-                     'let ghost ev = update.to_evict@;\n    let ghost mb = update.to_move_back@;\n'
+                     'let ghost ev0 = update.to_evict@;\n    let ghost mb0 = update.to_move_back@;\n'
                      '    proof {\n'
                      '        let key = |e: CachedFile| e.spec_rank();\n'
                      '        let acc = |e: CachedFile| e.spec_accessed();\n'
-                     '        assert(plan_is_second_chance(recs, capacity as nat, key, acc, ev, mb));\n'
-                     '        lemma_plan_facts(recs, capacity as nat, key, acc, ev, mb);\n'
+                     '        assert(plan_is_second_chance(recs, capacity as nat, key, acc, ev0, mb0));\n'
+                     '        lemma_plan_facts(recs, capacity as nat, key, acc, ev0, mb0);\n'
                      '        assert(evictable_records(recs, dir));\n'
-                     '        lemma_plan_subset(recs, ev, mb, dir);\n'
+                     '        lemma_plan_subset(recs, ev0, mb0, dir);\n'
+                     '    }\n    ')
+    # (B) right before the plan is applied: the frame argument is about whatever is handed to apply_update at that point
+    # (so that code which edits the plan in between fails the exactness clause, C07, and not the frame, C17 C02 C16)
+    pr.insert_before(('apply_update ( cache_dir , update ) ?', 'apply_update ('),
+                     'let ghost ev = update.to_evict@;\n    let ghost mb = update.to_move_back@;\n'
+                     '    proof {\n'
+                     '        assert(evictable_records(ev, dir));\n'
+                     '        assert(evictable_records(mb, dir));\n'
                      '        lemma_frame_refl(*old(w), ev, mb);\n'
                      '        let wc = *w;\n'
                      '        assert forall|fin: World| #[trigger] maint_frame(wc, fin, ev, mb) implies prune_frame(*old(w), fin, dir) && maint_frame(*old(w), fin, ev, mb) by {\n'
